@@ -103,6 +103,8 @@ func statConsistent(st *state.StateDB, stat *state.ValidatorsStat) bool {
 	return true
 }
 
+var corrFails = map[string]int{}
+
 type leanFail struct {
 	line, goOut, leanOut string
 }
@@ -127,6 +129,10 @@ func correspond(c *vh.Ctx, drv *vh.Driver, s *session, br *blockRec, scenario []
 	}
 	res := c.Res
 	report := func(kind string, f *leanFail) {
+		corrFails[kind]++
+		if corrFails[kind] > 5 {
+			return // keep room in the bounded failure list for oracle failures
+		}
 		rp := vh.WriteReplay(c.ReplayDir, "C06", fmt.Sprintf("corr-%s-%d-%d", kind, len(res.Failures), br.num), c.Seed,
 			[]string{"correspondence: Lean model and Go disagree on " + kind, "go:   " + f.goOut, "lean: " + f.leanOut,
 				"(the line below is what the driver was asked; the Go side of an L replay is re-derived only by re-running the chain)"},
